@@ -69,8 +69,8 @@ class Tween(Contract):
         it = a.iterable
         xs = it.e if isinstance(it, (PList, Sym)) else None
         if xs is None:
-            from pyvc.interp import OutOfSubset
-            raise OutOfSubset('tween over a non-symbolic iterable in contract mode')
+            from pyvc.interp import InlineInstead
+            raise InlineInstead()        # a concrete iterable: the caller interprets the generator itself
         n = z3.Length(xs) if n is None else n
         D = as_fragment(a.delim)
         P, S = as_fragment(a._d.get('prefix')), as_fragment(a._d.get('suffix'))
@@ -124,8 +124,8 @@ class WriteEachBase(Contract):
     def tw_term(self, a):
         xs = a.things.e if isinstance(a.things, (PList, Sym)) else None
         if xs is None:
-            from pyvc.interp import OutOfSubset
-            raise OutOfSubset('write_each over a concrete list in contract mode')
+            from pyvc.interp import InlineInstead
+            raise InlineInstead()
         n = z3.Length(xs)
         D = as_fragment(a._d.get('delim', literal(' ')))
         t = TW(xs, D, n)
@@ -295,12 +295,21 @@ class WriteShellBase(Contract):
 
     def xs_of(self, a):
         t = a.thing
-        return (t.attrs['data'] if isinstance(t, Obj) else t).e
+        t = t.attrs['data'] if isinstance(t, Obj) and 'data' in t.attrs else t
+        if not isinstance(t, (PList, Sym)) or getattr(t, 'concrete', False) or not hasattr(t, 'e'):
+            from pyvc.interp import InlineInstead
+            raise InlineInstead()        # not a symbolic list of fragments: the caller interprets the body
+        return t.e
 
-    def requires(self, a):
-        sp = self.spec()
+    def text_term(self, a):
         xs = self.xs_of(a)
-        return z3.And(sp.ALLF(xs, z3.Length(xs)), sp.space_text)
+        syntax = a._d.get('syntax', self.SYNTAX.shell)
+        fns = FR.frag_fns(self.BACKEND, syntax, 'quote')
+        tw = TW(xs, SPACE, z3.Length(xs))
+        t = fns.CW(tw, z3.Length(tw))
+        if isinstance(a.thing, Obj):
+            t = z3.Concat(T.lit('@'), t)
+        return t
 
     def ensures(self, a, r):
         from contracts.ninja import written
@@ -308,16 +317,26 @@ class WriteShellBase(Contract):
         xs = self.xs_of(a)
         n = z3.Length(xs)
         w = written(a.self, a.buf0)
-        out = {}
+        out = {'text_is_the_blank_joined_fragment_texts': w == self.text_term(a)}
+        if a._d.get('syntax', self.SYNTAX.shell) is not self.SYNTAX.shell:
+            return out          # other syntaxes: only the structure of the text (their reading is per fragment)
         if isinstance(a.thing, Obj):
             out['silent_marker_first'] = z3.And(z3.Length(w) >= 1, w[0] == ord('@'))
             w = z3.Extract(w, z3.IntVal(1), z3.Length(w) - 1)
         ok, t = PS.reader_out(self.READER, w)
         st, o = sh.run((START, 1), t)
+        hyp = z3.And(sp.ALLF(xs, n), sp.space_text)
         out['empty_list_writes_nothing'] = z3.Implies(n == 0, w == T.empty())
         out['read_back_as_exactly_the_arguments'] = z3.Implies(
-            n >= 1, z3.And(ok, st[0] == WORD, st[1] == 1, o == sp.WORDS(xs, n)))
+            z3.And(hyp, n >= 1), z3.And(ok, st[0] == WORD, st[1] == 1, o == sp.WORDS(xs, n)))
         return out
+
+    def apply_at_call(self, I, bound, site, frame):
+        # call-site use: the text written (first postcondition); the reading clause is a fact about that text
+        a = Args(bound, {})
+        st = bound['self'].attrs['stream']
+        st.buf = M.mk_str(z3.Concat(M.sym_str(st.buf), self.text_term(a)))
+        return None
 
     def proof(self, p, a, r, name, case):
         sp = self.spec()
@@ -335,15 +354,18 @@ class MakeWriteShell(WriteShellBase):
     BACKEND, READER, SYNTAX = 'make', 'make', msyn.Syntax
 
     def cases(self):
-        return ['list', 'silent']
+        return ['list', 'silent', 'list/clean']
 
     def params(self, cx, case):
         xs = z3.Const('args', Bits)
         buf0 = z3.Const('buf0', T.Str)
         cx.ghost('buf0', buf0)
         lst = PList(None, xs, ELT)
-        thing = lst if case == 'list' else Obj(msyn.Silent, {'data': lst})
-        return {'self': Obj(msyn.Writer, {'stream': PStream(Sym(buf0, 'str')), 'path_vars': None}), 'thing': thing}
+        thing = lst if case != 'silent' else Obj(msyn.Silent, {'data': lst})
+        d = {'self': Obj(msyn.Writer, {'stream': PStream(Sym(buf0, 'str')), 'path_vars': None}), 'thing': thing}
+        if case.endswith('/clean'):
+            d['syntax'] = msyn.Syntax.clean
+        return d
 
 
 class NinjaWriteShell(WriteShellBase):
@@ -352,14 +374,19 @@ class NinjaWriteShell(WriteShellBase):
     BACKEND, READER, SYNTAX = 'ninja', 'ninja', nsyn.Syntax
 
     def cases(self):
-        return ['list']
+        return ['list', 'list/clean', 'list/can_wrap']
 
     def params(self, cx, case):
         xs = z3.Const('args', Bits)
         buf0 = z3.Const('buf0', T.Str)
         cx.ghost('buf0', buf0)
-        return {'self': Obj(nsyn.Writer, {'stream': PStream(Sym(buf0, 'str')), 'path_vars': None, 'shell': bshell}),
-                'thing': PList(None, xs, ELT)}
+        d = {'self': Obj(nsyn.Writer, {'stream': PStream(Sym(buf0, 'str')), 'path_vars': None, 'shell': bshell}),
+             'thing': PList(None, xs, ELT)}
+        if case.endswith('/clean'):
+            d['syntax'] = nsyn.Syntax.clean
+        if case.endswith('/can_wrap'):
+            d['can_wrap'] = True         # a plain list is never wrapped in `cmd /s /c` (only shell_list on Windows)
+        return d
 
 
 def registry():
